@@ -4,6 +4,15 @@ use crate::report::{CheckResult, Collector, Fail};
 use crate::Ctx;
 
 pub mod c15;
+pub mod c17;
+pub mod hist;
+pub mod c03;
+pub mod c18;
+pub mod c10;
+pub mod c09;
+pub mod c06;
+pub mod c05;
+pub mod c04;
 
 pub struct Meta {
     pub level: &'static str,
@@ -15,6 +24,13 @@ pub struct Meta {
 pub fn run(ctx: &Ctx, col: &Collector) -> Meta {
     match ctx.id.as_str() {
         "C15" => c15::run(ctx, col),
+        "C03" => c03::run(ctx, col),
+        "C18" => c18::run(ctx, col),
+        "C10" => c10::run(ctx, col),
+        "C09" => c09::run(ctx, col),
+        "C06" => c06::run(ctx, col),
+        "C05" => c05::run(ctx, col),
+        "C04" => c04::run(ctx, col),
         other => {
             eprintln!("unknown property id {other}");
             std::process::exit(2);
@@ -26,6 +42,13 @@ pub fn run(ctx: &Ctx, col: &Collector) -> Meta {
 pub fn replay(ctx: &Ctx, kind: &str, case: &serde_json::Value, col: &Collector) -> CheckResult {
     match ctx.id.as_str() {
         "C15" => c15::replay(kind, case, col),
+        "C03" => c03::replay(kind, case, col),
+        "C18" => c18::replay(kind, case, col),
+        "C10" => c10::replay(kind, case, col),
+        "C09" => c09::replay(kind, case, col),
+        "C06" => c06::replay(kind, case, col),
+        "C05" => c05::replay(kind, case, col),
+        "C04" => c04::replay(kind, case, col),
         other => Err(Fail::new("replay-unsupported", format!("no replay for {other}"))),
     }
 }
